@@ -27,7 +27,43 @@ pub enum Act {
     SetBe(BE),
 }
 
-const GEOS: [((u32, u32), (u32, u32)); 4] = [((3, 3), (2, 2)), ((9, 7), (4, 5)), ((4, 5), (9, 7)), ((16, 16), (5, 3))];
+const GEOS: [((u32, u32), (u32, u32)); 18] = [
+    ((3, 3), (2, 2)),
+    ((9, 7), (4, 5)),
+    ((4, 5), (9, 7)),
+    ((16, 16), (5, 3)),
+    // size ladders (ratio ~1.2-1.3 between neighbours): the scratch buffers are grow-only Vecs whose
+    // capacity doubles, so three growing requests within a factor of two exercise len < need <= capacity
+    ((16, 40), (8, 10)),
+    ((16, 40), (8, 13)),
+    ((16, 40), (8, 15)),
+    ((16, 40), (8, 18)),
+    ((16, 40), (8, 22)),
+    ((6, 6), (3, 3)),
+    ((7, 7), (3, 3)),
+    ((8, 8), (3, 3)),
+    ((9, 9), (3, 3)),
+    ((10, 10), (3, 3)),
+    ((40, 40), (4, 4)),
+    ((40, 40), (5, 5)),
+    ((40, 40), (6, 6)),
+    ((40, 40), (7, 7)),
+];
+
+/// Ladder actions: (pixel type, geometry index, algorithm, alpha) — one ladder per scratch buffer.
+fn ladder_actions() -> Vec<Act> {
+    let mut v = vec![];
+    for g in 4..=8 {
+        v.push(Act::Resize { pt: PT::U8, geo: g, alg: Alg::Conv(F::Bilinear), alpha: false, frac: false }); // convolution_buffer
+    }
+    for g in 9..=13 {
+        v.push(Act::Resize { pt: PT::U8x4, geo: g, alg: Alg::Conv(F::Box), alpha: true, frac: false }); // alpha_buffer
+    }
+    for g in 14..=17 {
+        v.push(Act::Resize { pt: PT::U16x3, geo: g, alg: Alg::SS(F::Box, 2), alpha: false, frac: false }); // super_sampling_buffer
+    }
+    v
+}
 
 pub fn alphabet(tier: Tier, sub: bool) -> Vec<Act> {
     let pts = [PT::U8, PT::U8x2, PT::U8x3, PT::U16x3, PT::U16x4, PT::F32, PT::F32x3, PT::F32x4];
@@ -48,14 +84,14 @@ pub fn alphabet(tier: Tier, sub: bool) -> Vec<Act> {
         }
     } else {
         for &pt in pts.iter() {
-            for g in 0..GEOS.len() {
+            for g in 0..4 {
                 for &alg in algs.iter() {
                     v.push(Act::Resize { pt, geo: g, alg, alpha: false, frac: false });
                 }
             }
         }
         for &pt in [PT::U8x2, PT::U16x4, PT::F32x4].iter() {
-            for g in 0..GEOS.len() {
+            for g in 0..4 {
                 for &alg in [Alg::Conv(F::Lanczos3), Alg::SS(F::Box, 2)].iter() {
                     v.push(Act::Resize { pt, geo: g, alg, alpha: true, frac: false });
                 }
@@ -70,6 +106,7 @@ pub fn alphabet(tier: Tier, sub: bool) -> Vec<Act> {
         }
         let _ = tier;
     }
+    v.extend(ladder_actions());
     v.push(Act::BadCrop { pt: PT::U8x4 });
     v.push(Act::BadCrop { pt: PT::F32 });
     v.push(Act::Mismatch);
@@ -135,8 +172,6 @@ fn exec(rz: &mut Resizer, act: Act, key: u64) -> (String, Vec<u8>) {
 
 #[derive(Clone)]
 pub struct St {
-    rz: Resizer,
-    be: BE,
     key: u64,
     depth: u8,
     path: Vec<u16>,
@@ -174,37 +209,37 @@ pub struct Side {
 }
 
 pub struct M {
+    pub sub: bool,
     pub acts: Vec<Act>,
     pub max_depth: u8,
     pub side: Arc<Side>,
 }
 
-/// One transition; returns the new resizer state and any violations.
-pub fn step(rz: &Resizer, be: BE, act: Act, acts_idx: usize, depth: u8) -> (Resizer, BE, Vec<(String, Value)>, u64) {
+/// One transition, executed IN PLACE on the live (reused) Resizer — never on a clone: `Vec::clone`
+/// gives capacity == len, which would silently reset the one piece of scratch-buffer state
+/// (spare capacity) that a history can build up. Returns violations and an outcome hash.
+pub fn step_live(rz: &mut Resizer, be: &mut BE, act: Act, acts_idx: usize, depth: u8) -> (Vec<(String, Value)>, u64) {
     let mut viols = vec![];
-    let mut rz2 = rz.clone();
-    let mut be2 = be;
     let mut out_hash = 0u64;
     match act {
         Act::Reset => {
-            rz2.reset_internal_buffers();
-            if rz2.size_of_internal_buffers() != 0 {
-                viols.push(("C09|reset_internal_buffers leaves capacity".to_string(), json!({"size": rz2.size_of_internal_buffers()})));
+            rz.reset_internal_buffers();
+            if rz.size_of_internal_buffers() != 0 {
+                viols.push(("C09|reset_internal_buffers leaves capacity".to_string(), json!({"size": rz.size_of_internal_buffers()})));
             }
         }
         Act::CloneIt => {
-            let c = rz2.clone();
-            drop(rz2);
-            rz2 = c;
+            let c = rz.clone();
+            *rz = c;
         }
         Act::SetBe(b) => {
-            unsafe { rz2.set_cpu_extensions(b.fir()) };
-            be2 = b;
+            unsafe { rz.set_cpu_extensions(b.fir()) };
+            *be = b;
         }
         _ => {
             let key = 0xC09u64 ^ ((acts_idx as u64) << 8) ^ depth as u64;
-            let reused = guarded(|| exec(&mut rz2, act, key));
-            let mut fresh_rz = new_resizer(be);
+            let reused = guarded(|| exec(rz, act, key));
+            let mut fresh_rz = new_resizer(*be);
             let fresh = guarded(|| exec(&mut fresh_rz, act, key));
             match (reused, fresh) {
                 (Ok((r1, d1)), Ok((r2, d2))) => {
@@ -221,7 +256,35 @@ pub fn step(rz: &Resizer, be: BE, act: Act, acts_idx: usize, depth: u8) -> (Resi
             }
         }
     }
-    (rz2, be2, viols, out_hash)
+    (viols, out_hash)
+}
+
+/// Rebuild the live Resizer of a state by replaying its action path from `Resizer::new()`.
+/// None if a prefix step panics (that step was already reported; nothing meaningful follows).
+pub fn rebuild(acts: &[Act], path: &[u16]) -> Option<(Resizer, BE)> {
+    let mut rz = Resizer::new();
+    let mut be = *backends().last().unwrap();
+    for (d, &a) in path.iter().enumerate() {
+        let act = acts[a as usize];
+        match act {
+            Act::Reset => rz.reset_internal_buffers(),
+            Act::CloneIt => {
+                let c = rz.clone();
+                rz = c;
+            }
+            Act::SetBe(b) => {
+                unsafe { rz.set_cpu_extensions(b.fir()) };
+                be = b;
+            }
+            _ => {
+                let key = 0xC09u64 ^ ((a as u64) << 8) ^ d as u64;
+                if guarded(|| exec(&mut rz, act, key)).is_err() {
+                    return None;
+                }
+            }
+        }
+    }
+    Some((rz, be))
 }
 
 fn act_class(a: Act) -> String {
@@ -236,8 +299,7 @@ impl Model for M {
     type Action = u16;
     fn init_states(&self) -> Vec<St> {
         let rz = Resizer::new();
-        let be = *backends().last().unwrap();
-        vec![St { key: state_key(&rz), rz, be, depth: 0, path: vec![] }]
+        vec![St { key: state_key(&rz), depth: 0, path: vec![] }]
     }
     fn actions(&self, s: &St, out: &mut Vec<u16>) {
         if s.depth < self.max_depth {
@@ -246,7 +308,9 @@ impl Model for M {
     }
     fn next_state(&self, s: &St, a: u16) -> Option<St> {
         let act = self.acts[a as usize];
-        let (rz2, be2, viols, oh) = step(&s.rz, s.be, act, a as usize, s.depth);
+        // the state's live Resizer is re-created by replaying its path on ONE Resizer (no clones)
+        let (mut rz2, mut be2) = rebuild(&self.acts, &s.path)?;
+        let (viols, oh) = step_live(&mut rz2, &mut be2, act, a as usize, s.depth);
         self.side.transitions.fetch_add(1, Ordering::Relaxed);
         if !matches!(act, Act::Reset | Act::CloneIt | Act::SetBe(_)) {
             self.side.compared.fetch_add(1, Ordering::Relaxed);
@@ -256,7 +320,7 @@ impl Model for M {
         if !viols.is_empty() {
             let mut t = self.side.viols.lock().unwrap();
             for (sig, d) in viols {
-                let e = t.entry(sig).or_insert((0, json!({"path": path, "actions": path.iter().map(|i| format!("{:?}", self.acts[*i as usize])).collect::<Vec<_>>(), "more": d, "sub_alphabet": self.acts.len() < 60})));
+                let e = t.entry(sig).or_insert((0, json!({"path": path, "actions": path.iter().map(|i| format!("{:?}", self.acts[*i as usize])).collect::<Vec<_>>(), "more": d, "sub_alphabet": self.sub})));
                 e.0 += 1;
             }
         }
@@ -266,7 +330,8 @@ impl Model for M {
                 o.insert(oh);
             }
         }
-        Some(St { key: state_key(&rz2), rz: rz2, be: be2, depth: s.depth + 1, path })
+        let _ = be2;
+        Some(St { key: state_key(&rz2), depth: s.depth + 1, path })
     }
     fn properties(&self) -> Vec<Property<Self>> {
         // verdicts are collected in the side table so that one run lists every distinct failure;
@@ -279,7 +344,7 @@ fn search(acts: Vec<Act>, depth: u8, threads: usize, name: &str) -> Report {
     let t0 = std::time::Instant::now();
     let side = Arc::new(Side { transitions: AtomicU64::new(0), compared: AtomicU64::new(0), viols: Mutex::new(BTreeMap::new()), outcomes: Mutex::new(Default::default()) });
     let nacts = acts.len();
-    let m = M { acts, max_depth: depth, side: side.clone() };
+    let m = M { sub: name.starts_with("sub"), acts, max_depth: depth, side: side.clone() };
     let checker = m.checker().threads(threads).spawn_bfs().join();
     let mut rep = Report::default();
     rep.cases = checker.unique_state_count() as u64;
@@ -327,9 +392,7 @@ pub fn prop(tier: Tier, _seed: u64) -> Prop {
         let mut out = vec![];
         for (d, &a) in path.iter().enumerate() {
             println!("step {}: {:?}", d, acts[a]);
-            let (r2, b2, v, _) = step(&rz, be, acts[a], a, d as u8);
-            rz = r2;
-            be = b2;
+            let (v, _) = step_live(&mut rz, &mut be, acts[a], a, d as u8);
             out.extend(v);
         }
         out
